@@ -1,4 +1,4 @@
-(* C02 - Inv4 is preserved: actions ATFire, ATDrop, ATTake, ATRun, ATick *)
+(* C02 - Inv4 is preserved: actions ATFire *)
 From Coq Require Import List ZArith Bool Arith Lia.
 Import ListNotations.
 Require Import MayV.Rt.AtomicDur MayV.Base.BlockerSpec MayV.Rt.ParkModel MayV.Rt.ParkTac MayV.Rt.ParkInv1 MayV.Rt.ParkInv2 MayV.Rt.ParkInv3 MayV.Rt.ParkInv4Def.
@@ -7,15 +7,3 @@ Open Scope Z_scope.
 
 Lemma inv4_ATFire s s' : forall i, Inv1 s -> Inv2 s -> Inv3 s -> Inv4 s -> stepF s (ATFire i) = Some s' -> Inv4 s'.
 Proof. intros i. intro4. step4 Ipl H. all: show4. Qed.
-
-Lemma inv4_ATDrop s s' : forall i, Inv1 s -> Inv2 s -> Inv3 s -> Inv4 s -> stepF s (ATDrop i) = Some s' -> Inv4 s'.
-Proof. intros i. intro4. step4 Ipl H. all: show4. Qed.
-
-Lemma inv4_ATTake s s' : forall i, Inv1 s -> Inv2 s -> Inv3 s -> Inv4 s -> stepF s (ATTake i) = Some s' -> Inv4 s'.
-Proof. intros i. intro4. step4 Ipl H. all: show4. Qed.
-
-Lemma inv4_ATRun s s' : forall i, Inv1 s -> Inv2 s -> Inv3 s -> Inv4 s -> stepF s (ATRun i) = Some s' -> Inv4 s'.
-Proof. intros i. intro4. step4 Ipl H. all: show4. Qed.
-
-Lemma inv4_ATick s s' : forall d, Inv1 s -> Inv2 s -> Inv3 s -> Inv4 s -> stepF s (ATick d) = Some s' -> Inv4 s'.
-Proof. intros d. intro4. step4 Ipl H. all: show4. Qed.
